@@ -595,7 +595,7 @@ impl Interpreter {
 }
 
 // Turn a panic caught at one of the interpreter's entry points into an error
-fn panic_to_error(err: Box<dyn std::any::Any + Send>) -> MechError {
+pub(crate) fn panic_to_error(err: Box<dyn std::any::Any + Send>) -> MechError {
   let raw_msg = match (err.downcast_ref::<&'static str>(), err.downcast_ref::<String>()) {
     (Some(raw_msg), _) => *raw_msg,
     (_, Some(raw_msg)) => raw_msg.as_str(),
